@@ -140,7 +140,7 @@ PROPS = {
                              "Windows raw_arg branch not verified"],
                 claim="Command::to_spawnable proved by Verus for all programs/argument vectors/options: argv and wrapper sequence equal the specification; tail of interpret_command_args proved (words -> program+args / joined command string, wrap mode -> group/session); spawn-hook dataflow proved in unit task",
                 trusted="stand-ins in prelude/command_env.rs (tokio Command recorder, process-wrap wrapper kinds)"),
-    "C03": dict(units=["ignore", "ignorebuild"], level="proof",
+    "C03": dict(units=["ignore", "ignorebuild", "sources"], level="proof",
                 assumptions=["glob semantics of one compiled ignore file (the `ignore` crate: pattern grammar, agreement with git check-ignore) are NOT decided: each file's matcher is an uninterpreted function of (file, path, is_dir)",
                              "PATH THEORY (trusted axioms in prelude/ignore_env.rs): a parent is shorter; an ancestor's display string is a textual prefix; a textual prefix cut at its last separator is a true ancestor; the longest-textual-prefix argument on one ancestor chain; the root is the shortest path",
                              "radix_trie::Trie::get_ancestor returns the entry with the longest key that is a textual prefix of the query (assumed contract of the dependency)",
@@ -172,7 +172,7 @@ PROPS = {
                              "clap parsing (conflicts_with between --restart and --on-busy-update) not decided"],
                 claim="Verus proves the on-busy block sends exactly the documented controls per (running, mode): idle -> Start; do-nothing -> nothing; signal -> the configured signal only; restart -> graceful restart with the stop signal/timeout; queue -> at most one follow-up task, which waits for the current run to end and then starts one run; --signal/-r select the mode; start-up event sent iff not --postpone (structural); non-overlap is C04's invariant (same obligations)",
                 trusted="stand-ins in prelude/cliaction_env.rs (Job handle as a control log, atomics), prelude/task_env.rs"),
-    "C08": dict(units=["actionloop", "cliaction", "task", "flag"], level="proof",
+    "C08": dict(units=["actionloop", "cliaction", "task", "flag", "sources"], level="proof",
                 fallback=[replay_engine("lib", "graceful_quit_three_stubborn_jobs_within_grace", "C08.bounded.graceful_quit_three_stubborn_jobs_within_grace",
                                         "3 jobs that ignore SIGTERM, quit_gracefully(Terminate, 1.5 s) on the real library: the main task ends within grace + 1.2 s, not before the grace, and no process survives")],
                 engines=[replay_engine("supervisor", "grouped_graceful_stop_leaves_no_member", "C08.assumption.no_group_member_outlives_a_graceful_stop",
@@ -192,7 +192,7 @@ PROPS = {
                              "DirTourist::new (canonicalize, filter construction) is covered only by the structural obligations on the VCS metadata directory globs"],
                 claim="Verus proves: only regular non-empty files count; each found file is appended once, tagged with its directory and VCS; from_origin returns exactly explicit + [git-config] + existing origin-level files + existing .ignore/.gitignore/.hgignore of every directory the walker hands out, in order, and feeds each to the walker's filter at once; the walker hands out only queued, unskipped, unignored, watch-related directories, queues every unignored listed subdirectory, prunes ignored ones with everything queued beneath them, and a skipped directory covers its whole subtree",
                 trusted="stand-ins in prelude/discover_env.rs (abstract file system, path theory axioms, HashSet/Vec idioms, IgnoreFilter verdicts)"),
-    "C11": dict(units=["globset", "ignore"], level="proof",
+    "C11": dict(units=["globset", "ignore", "sources"], level="proof",
                 assumptions=["glob matchers (ignore::gitignore::Gitignore built from --filter/--ignore patterns) are uninterpreted functions of (matcher, path, is_dir); num_ignores() > 0 is read as 'filter patterns configured'",
                              "the backing ignore-files filterer is C03's contract (uninterpreted verdict here)",
                              "iterator idioms (paths().any, iter().any, peekable/peek) are redirected to prelude functions with sequence-level specs; every closure body is proved against its clause and ghost twin; the big per-path closure is outlined (R14) and proved as `per_path`",
